@@ -33,6 +33,7 @@ func checkC20(ctx *Ctx, r *Report) {
 	c20ErrorDiscipline(ctx, r)
 	c20DispatchReached(ctx, r)
 	cfgNilEntries(ctx, r)
+	c20UnionsNonEmptyInSchemas(ctx, r)
 }
 
 // ---------------------------------------------------------------------------
@@ -170,7 +171,8 @@ func c20StrictHelper(ctx *Ctx, r *Report) {
 			eof = true
 		}
 		if fn.Pkg() == hp.Types && fn != helper {
-			if sig, _ := fn.Type().(*types.Signature); sig != nil && sig.Params().Len() == 1 && sig.Results().Len() == 1 {
+			// the shape check: (node[, target type]) error
+			if sig, _ := fn.Type().(*types.Signature); sig != nil && sig.Params().Len() >= 1 && sig.Params().Len() <= 2 && sig.Results().Len() == 1 && strings.HasSuffix(sig.Params().At(0).Type().String(), "yaml.v3.Node") {
 				shape = fn
 			}
 		}
@@ -195,7 +197,8 @@ func c20StrictHelper(ctx *Ctx, r *Report) {
 							if strings.HasSuffix(exprString(e), k) {
 								rejects := false
 								ast.Inspect(x, func(m ast.Node) bool {
-									if is, ok := m.(*ast.IfStmt); ok && blockReturnsError(hinfo, is.Body, errT) {
+									// a test of the node itself, not the propagation of an error met deeper (`if err := f(child); err != nil`)
+									if is, ok := m.(*ast.IfStmt); ok && is.Init == nil && blockReturnsError(hinfo, is.Body, errT) {
 										rejects = true
 									}
 									return true
@@ -219,6 +222,53 @@ func c20StrictHelper(ctx *Ctx, r *Report) {
 				"the shape check has no rejecting case for yaml."+k+": "+want[k]+" are skipped by yaml.v3 without an error (a `~: x` pair, a `- ~` rule, a `~` file)")
 		}
 		r.Check(recurses, "cfgschema/strict-helper", shape.Name()+" descends into every node", shape.Pos(), "the check calls itself on the content of the node", "the shape check does not recurse: only the top level of the document is checked")
+		// the checks belong to the configuration language, not to the free-form values it carries (`any`: defaults,
+		// constants, hints — `true` in the published schemas): the walk follows the target type and stops at interfaces
+		stops := false
+		if sfd != nil && sfd.Body != nil {
+			ast.Inspect(sfd.Body, func(n ast.Node) bool {
+				is, ok := n.(*ast.IfStmt)
+				if !ok {
+					return true
+				}
+				if strings.Contains(exprString(is.Cond), "reflect.Interface") {
+					for _, st := range is.Body.List {
+						if rs, ok := st.(*ast.ReturnStmt); ok && len(rs.Results) == 1 && exprString(rs.Results[0]) == "nil" {
+							stops = true
+						}
+					}
+				}
+				return true
+			})
+		}
+		// a key left without a value (`builders: ~`, an empty `passes:`): yaml.v3 gives the zero value, so the loader
+		// accepts it; the published schemas type those keys array / object / string. Either the shape check refuses a
+		// null value where the target is not free-form, or the schemas have to admit null.
+		rejectsNullValue := false
+		if sfd != nil && sfd.Body != nil {
+			ast.Inspect(sfd.Body, func(n ast.Node) bool {
+				c, ok := n.(*ast.CallExpr)
+				if !ok || len(c.Args) != 1 {
+					return true
+				}
+				if fn := callee(hinfo, c); fn == nil || fn.Name() != "isNullNode" {
+					return true
+				}
+				// the value of a mapping pair: node.Content[i+1]
+				if ix, ok := ast.Unparen(c.Args[0]).(*ast.IndexExpr); ok {
+					if be, ok := ast.Unparen(ix.Index).(*ast.BinaryExpr); ok && be.Op == token.ADD {
+						rejectsNullValue = true
+					}
+				}
+				return true
+			})
+		}
+		if r.Property == "C20" { // an editor / loader disagreement: nothing C04 (no panic, termination) depends on
+			r.Check(rejectsNullValue, "cfgschema/null-values", shape.Name()+" and the published schemas agree on keys without value", shape.Pos(), "a null value is refused where the schema demands a list, an object or a string",
+				"a key left without a value loads (yaml.v3 decodes null into the zero value) while the published schemas type every such key array / object / string and refuse null: a file that loads does not validate in an editor")
+		}
+		r.Check(stops, "cfgschema/strict-shape-type-directed", shape.Name()+" stops at free-form values", shape.Pos(), "the walk returns when the target type is an interface",
+			"the shape check walks the whole document whatever it is decoded into: a default, a constant or a hint (type any, `true` in the published schemas) holding `[~, 80]` is refused with `empty list entry` — a file that validates in an editor does not load")
 	}
 	// (b) who decodes configuration: every yaml decoder of cog is built inside the helper, and the loaders pass it a
 	// pointer to a struct (a pointer to a pointer is reset to nil by a null document)
@@ -1051,4 +1101,83 @@ func c20DispatchReached(ctx *Ctx, r *Report) {
 	}
 	r.Count("loader loops over lists of rule / pass entries", n)
 	r.Floor("loader loops over lists of rule / pass entries", 3)
+}
+
+// c20UnionsNonEmptyInSchemas: the loaders refuse a union value with no member set (a rule entry without action, a
+// selector without criterion: the fall-through of their dispatch returns an error, checked by cfgschema/union-*). The
+// published schemas are a reflection of the structs and say nothing of it unless the generator adds it: for every
+// union struct of internal/yaml — all exported members are pointers, and the type has an As… decoding method — the
+// definition of the same name in schemas/*.json carries minProperties >= 1 (or required members through anyOf).
+func c20UnionsNonEmptyInSchemas(ctx *Ctx, r *Report) {
+	p := ctx.Pkg("internal/yaml")
+	if p == nil {
+		r.Undecided("package internal/yaml not found")
+		return
+	}
+	var unions []*types.Named
+	for _, name := range p.Types.Scope().Names() {
+		tn, ok := p.Types.Scope().Lookup(name).(*types.TypeName)
+		if !ok {
+			continue
+		}
+		nt, ok := tn.Type().(*types.Named)
+		if !ok {
+			continue
+		}
+		st, ok := nt.Underlying().(*types.Struct)
+		if !ok || st.NumFields() < 2 {
+			continue
+		}
+		allPtr := true
+		for i := 0; i < st.NumFields(); i++ {
+			if _, ok := st.Field(i).Type().Underlying().(*types.Pointer); !ok || !st.Field(i).Exported() {
+				allPtr = false
+			}
+		}
+		if !allPtr {
+			continue
+		}
+		decodes := false
+		for i := 0; i < nt.NumMethods(); i++ {
+			if strings.HasPrefix(nt.Method(i).Name(), "As") {
+				decodes = true
+			}
+		}
+		if decodes {
+			unions = append(unions, nt)
+		}
+	}
+	defs := map[string]map[string]any{}
+	for _, file := range []string{"schemas/compiler_passes.json", "schemas/veneers.json", "schemas/pipeline.json"} {
+		data, err := os.ReadFile(filepath.Join(ctx.Repo, file))
+		if err != nil {
+			r.Undecided("cannot read %s: %v", file, err)
+			return
+		}
+		var doc map[string]any
+		if err := json.Unmarshal(data, &doc); err != nil {
+			continue
+		}
+		raw, _ := doc["$defs"].(map[string]any)
+		for k, v := range raw {
+			if m, ok := v.(map[string]any); ok {
+				defs[normName(k)] = m
+			}
+		}
+	}
+	n := 0
+	for _, nt := range unions {
+		def, ok := defs[defNameOf(nt)]
+		if !ok {
+			continue
+		}
+		n++
+		min, _ := def["minProperties"].(float64)
+		_, anyOf := def["anyOf"]
+		_, oneOf := def["oneOf"]
+		r.Check(min >= 1 || anyOf || oneOf, "cfgschema/union-nonempty-in-schema", "schemas define "+nt.Obj().Name()+" as a non-empty union", nt.Obj().Pos(), "the definition demands at least one member",
+			"the loader refuses a "+nt.Obj().Name()+" with no member set (an entry `{}`), the published schema accepts it (no minProperties / anyOf on the definition): a file that validates in an editor does not load")
+	}
+	r.Count("union definitions of the configuration schemas", n)
+	r.Floor("union definitions of the configuration schemas", 4)
 }
